@@ -1,6 +1,8 @@
 import Netpol.Sexp
 import Netpol.Model.AlgDriver
 import Netpol.Model.WorldDriver
+import Netpol.Spec.SpecDriver
+import Netpol.Model.HistDriver
 open Netpol
 
 def handle (line : String) : String :=
@@ -10,6 +12,8 @@ def handle (line : String) : String :=
     match s.head? with
     | some "alg" => toString (AlgDriver.run s.args)
     | some "wcase" => toString (WorldDriver.run s.args)
+    | some "hist" => toString (HistDriver.run s.args)
+    | some "wspec" => toString (Spec.SpecDriver.run s.args)
     | _ => "bad-op"
 
 partial def loop (hin hout : IO.FS.Stream) : IO Unit := do
